@@ -1296,6 +1296,9 @@ fn specials() -> Vec<(String, String)> {
     // query source handed to Query::new): the error is built from the byte BEFORE the offset
     for t in ["x: (_) { }", "  x: (_) { }", "(module) { }\n\n  nae: (identifier) { }", "x:(_){}", "\u{e9}: (_) { }", "nofield: (identifier) @x {\n  node n\n}\n", "name: (identifier) @n { }",
               "; c\nzz: (module) @m { }", "global g\nfld: _ @x { print g }"] { add("query-start", t.to_string()); }
+    // multi-byte characters around byte offset 4 of an `if` / `elif` condition (where the `some` / `none` keywords are probed)
+    for t in ["(module) {\n  let abc\u{e9} = #true\n  if abc\u{e9} {\n  }\n}\n", "(module) {\n  if #false {\n  } elif \"ab\u{2192}\" {\n  }\n}\n", "(module) {\n  if som\u{20ac} {\n  }\n}\n",
+              "(module) {\n  if non\u{65e5} {\n  }\n}\n", "(module) {\n  if \u{e9} {\n  }\n}\n", "(module) {\n  if so\u{1f600} {\n  }\n}\n"] { add("cond-multibyte", t.to_string()); }
     for t in [" \n\t\r\n", "\u{a0}\u{2028} ", "\n", "\u{b}\u{c}"] { add("ws-only", t.to_string()); }
     for t in ["; c", "; c\n", ";\n;;\n ; é {", ";", ";\n", "; (module) @m { }", " ; a\r; b\n"] { add("comment-only", t.to_string()); }
     for sfx in ["", " ", "\n", "\t", "\r", ";", "; c\n", "?", "*", "+", "??", "=", "= \"d\"", "(", "\"", "\u{a0}", "\u{2028}", "é", "\0", "0", "-", "_", "?=\"d\"",
@@ -1414,7 +1417,7 @@ pub fn malformed_texts(rng: &mut Rng, n: usize) -> Vec<(String, Vec<String>, &'s
     let queries = query_pool();
     let mut out = Vec::with_capacity(n);
     // hand-written edge cases: a random subset (at most 2/5 of the stream), all of them in thorough runs
-    let (core, mut sp): (Vec<_>, Vec<_>) = specials().into_iter().partition(|(k, _)| k == "empty" || k == "ws-only" || k == "comment-only" || k == "query-start");
+    let (core, mut sp): (Vec<_>, Vec<_>) = specials().into_iter().partition(|(k, _)| k == "empty" || k == "ws-only" || k == "comment-only" || k == "query-start" || k == "cond-multibyte");
     for i in (1..sp.len()).rev() { let j = rng.below(i + 1); sp.swap(i, j); }
     let mut sp: Vec<(String, String)> = core.into_iter().chain(sp).collect();   // empty / blank / comment-only inputs are in every run
     sp.truncate(n * 2 / 5);
